@@ -25,9 +25,9 @@ TB_Z = ("Trusted: Coq 8.16.1 kernel (+vm_compute); hand-written Gallina model ti
         "module each run; CPython int semantics; search-side exact-rational oracles (Python fractions) decide the spec "
         "predicates on generated cases.")
 CHECKS.update({
- "C03": dict(level="proof", engine="A", technique="Coq/Flocq theorems (Props/C03.v): exact-small branches correctly rounded and exact, loop invariant of the directed binary exponentiation, directed results on the right side of x^n for positive and negative exponents; Gallina model of mpf_pow_int (bit-recursive loop) in correspondence with the code; exact-rational oracle for direction/exactness/1-ulp/small-case clauses; shared normalize theorems",
-   text="mpf_pow_int is transliterated (loop = structural recursion on the bits of n) and run against the live code on bases/exponents on both sides of every switch; every clause of the property (directed results never past the exact power, exact powers exact, nearest within 1 ulp, few-bit powers correctly rounded, huge powers bracketed by integer log2 bounds) is decided exactly per case. The final rounding step is covered by the normalize theorems; the loop invariant theorem is not yet proved. Theorems: for every regular base, exponent, precision and mode, the n=1/n=2/man=1/bc*n<1000 branches equal the Flocq rounding of x^n (and x^n itself when it fits); the loop's running product stays below (above) the exact partial power by induction on the exponent bits, its bit-count bookkeeping is exact up to the tolerated off-by-one, so floor/ceiling/down/up results are never past x^n; for n<0 the (prec+5)-bit power with reciprocal_rnd followed by division is on the right side of 1/x^n. The one-ulp bound for nearest mode in the loop branch is decided by the oracle only (C03_nearest_partial states the proved part).",
-   note=TB_A + " Not proved: the 1-ulp bound of the loop branch in nearest mode (oracle only); infinities/nan/zero bases are decided by correspondence and tables."),
+ "C03": dict(level="proof", engine="A", technique="Coq/Flocq theorems (Props/C03.v): exact-small branches correctly rounded and exact, loop invariant of the directed binary exponentiation, directed results on the right side of x^n for positive and negative exponents, nearest mode within 3/4 ulp; Gallina model of mpf_pow_int (bit-recursive loop) in correspondence with the code; exact-rational oracle for direction/exactness/1-ulp/small-case clauses; shared normalize theorems",
+   text="mpf_pow_int is transliterated (loop = structural recursion on the bits of n) and run against the live code on bases/exponents on both sides of every switch; every clause of the property (directed results never past the exact power, exact powers exact, nearest within 1 ulp, few-bit powers correctly rounded, huge powers bracketed by integer log2 bounds) is decided exactly per case. The final rounding step is covered by the normalize theorems; the loop invariant theorem is not yet proved. Theorems: for every regular base, exponent, precision and mode, the n=1/n=2/man=1/bc*n<1000 branches equal the Flocq rounding of x^n (and x^n itself when it fits); the loop's running product stays below (above) the exact partial power by induction on the exponent bits, its bit-count bookkeeping is exact up to the tolerated off-by-one, so floor/ceiling/down/up results are never past x^n; for n<0 the (prec+5)-bit power with reciprocal_rnd followed by division is on the right side of 1/x^n. In nearest mode the loop loses at most n*2^(1-wp) relative accuracy (lower-bound invariant with multiplicative (1-2^(1-wp))^k bookkeeping), so every branch returns a value within 3/4 ulp of x^n (C03_nearest).",
+   note=TB_A + " Infinities/nan/zero bases and the public operator glue are decided by correspondence, tables and the exact oracle."),
  "C04": dict(level="proof", engine="A", technique="Coq/Flocq theorems (Props/C04.v): mpc add/sub/mul/mul_mpf/add_mpf are componentwise Flocq roundings of the exact complex result, square real part, structural equality; Gallina model of libmpc arithmetic in correspondence; componentwise correct rounding (add/sub/mul/square/mul_mpf/mul_int/pow n>=0) and 4-ulp modulus bound (div/reciprocal/negative powers) decided exactly; mpc operators and equality at API level",
    text="Complex add/sub/mul/square/pow are compositions of exact products and one correctly rounded add per component in the model (normalize theorems apply); the model is tied to the code by correspondence and every generated case is decided by an exact-rational oracle, including the division family's error bound and exact equality with complex/int/float/mpf. Theorems in Props/C04.v state componentwise correct rounding of add, sub, mul, scaling and the real part of square for all finite components, precisions and modes, that mpc equality is equality of both components, and for division, reciprocal and modulus an exact structural statement (correctly rounded quotient / square root of the (prec+10)- resp. (prec+4)-bit truncations) together with an error bound relative to the modulus: each component of z/w within 3*2^(1-prec)*|z|/|w|, of 1/z within 3*2^(1-prec)/|z|, |z| within 3*2^-prec*|z| (Flocq relative-error lemma + Cauchy-Schwarz).",
    note=TB_A + " Integer and negative powers, sqrt and mpf/mpc mixed division are decided by the exact oracle, not by a theorem."),
